@@ -146,8 +146,17 @@ def gen_map(rng, which):
     if which == "henon":
         a = Fraction(rng.randint(0, 12), 8)
         b = Fraction(rng.randint(-4, 4), 8)
-        return {"kind": "henon", "n": n, "a": str(a), "b": str(b),
-                "x0": [str(Fraction(rng.randint(-8, 8), 8)), str(Fraction(rng.randint(-8, 8), 8))], "defaults": rng.random() < 0.1}
+        c = {"kind": "henon", "n": n, "a": str(a), "b": str(b),
+             "x0": [str(Fraction(rng.randint(-8, 8), 8)), str(Fraction(rng.randint(-8, 8), 8))], "defaults": rng.random() < 0.1}
+        # the initial condition as users write it: floats, Python ints, an integer / float32 numpy array, a tuple -- the series is
+        # the same real-valued recurrence whatever the dtype of x0
+        r = rng.random()
+        if r < 0.3:
+            c["x0"] = [str(rng.randint(-1, 1)), str(rng.randint(-1, 1))]
+            c["x0_form"] = rng.choice(["int-list", "int-array", "int-tuple"])
+        elif r < 0.45:
+            c["x0_form"] = rng.choice(["float32-array", "float-tuple"])
+        return c
     order = rng.randint(1, 4)
     if rng.random() < 0.3:
         par = ["0.2", "0.04", "1.5", "0.001"]       # library defaults (not dyadic: passed as their exact float value)
@@ -261,7 +270,16 @@ def run_impl(c):
         if c.get("defaults"):
             out = ds.henon_map(c["n"])
         else:
-            out = ds.henon_map(c["n"], a=float(F(c["a"])), b=float(F(c["b"])), x0=[float(F(v)) for v in c["x0"]])
+            form = c.get("x0_form", "float-list")
+            x0 = [float(F(v)) for v in c["x0"]]
+            if form.startswith("int-"):
+                x0 = [int(F(v)) for v in c["x0"]]
+                x0 = np.array(x0) if form == "int-array" else tuple(x0) if form == "int-tuple" else x0
+            elif form == "float32-array":
+                x0 = np.array(x0, dtype=np.float32)
+            elif form == "float-tuple":
+                x0 = tuple(x0)
+            out = ds.henon_map(c["n"], a=float(F(c["a"])), b=float(F(c["b"])), x0=x0)
         return {"out": out.tolist(), "shape": list(out.shape)}
     if k == "narma":
         a1, a2, b, cc = [float(p) if "." in p else float(F(p)) for p in c["par"]]
